@@ -195,6 +195,8 @@ func (p *Program) parseContractFile(file, text string, model bool) error {
 				gv.Sort = "BSeq"
 			case "Ref":
 				gv.Sort = SInt
+			case "Time":
+				gv.Sort, gv.T = STime, timeType(p)
 			default:
 				return fmt.Errorf("%s: ghost type %s not supported", loc, fs[1])
 			}
